@@ -134,6 +134,14 @@ def run(ctx):
         if not cs:
             raise verif.ToolError("TLC emitted no behaviours for " + cfg)
         per_cfg[cfg] = len(cs)
+        if not ctx.thorough and cfg != "MC_VmBytecode_L1.cfg" and len(cs) > 50000:
+            # quick tier: TLC still enumerates (and checks) the whole tree; a seeded sample is replayed
+            outcomes_all = {}
+            for c in cs:
+                outcomes_all.setdefault(c["exp"]["st"], []).append(c)
+            keep = [c for v in outcomes_all.values() for c in verif.sample(ctx.rng, v, 40)]   # every outcome stays
+            cs = keep + verif.sample(ctx.rng, cs, 50000 - len(keep))
+            per_cfg[cfg + ":replayed"] = len(cs)
         cases += cs
     outcomes = vacuity(cases, tb)
 
